@@ -181,3 +181,77 @@ func TestProp_RestartInFirstScheduleRebasesTheNext(t *testing.T) {
 		})
 	})
 }
+
+// TestProp_NoStepBackWithoutRestart: a runner whose first schedule has a real start delay is
+// restarted before that delay is over (Restart starts the first schedule at once). By the 100th
+// invocation after Restart returned the request has been taken up (see above); if that is before the
+// second schedule's first invocation, nothing is left that could take the runner back to the first
+// schedule: from then on only the second frequency may be seen - in particular the start delay that
+// was pending when Restart was called must not fire later.
+func TestProp_NoStepBackWithoutRestart(t *testing.T) {
+	rapid.Check(t, func(rt *rapid.T) {
+		f0 := time.Duration(rapid.IntRange(1, 2).Draw(rt, "firstEveryMs")) * time.Millisecond
+		d0 := time.Duration(rapid.IntRange(400, 700).Draw(rt, "firstAfterMs")) * time.Millisecond
+		d1 := time.Duration(rapid.IntRange(250, 350).Draw(rt, "secondAfterMs")) * time.Millisecond
+		f1 := f0 + time.Duration(rapid.IntRange(3, 10).Draw(rt, "secondEveryExtraMs"))*time.Millisecond
+		restartAt := time.Duration(rapid.IntRange(1, 40).Draw(rt, "restartAtMs")) * time.Millisecond
+
+		base := time.Now()
+		var mu sync.Mutex
+		var log []invocation
+		fn := func(freq time.Duration) {
+			enter := time.Since(base)
+			mu.Lock()
+			log = append(log, invocation{Enter: enter, Exit: enter, Freq: freq})
+			mu.Unlock()
+		}
+		r, err := raterun.New(fn, []raterun.Schedule{{StartDelay: d0, Frequency: f0}, {StartDelay: d1, Frequency: f1}})
+		if err != nil {
+			rt.Fatalf("VERIF-INFRA: %v", err)
+		}
+		ctx, cancel := context.WithCancel(context.Background())
+		defer cancel()
+		r.Start(ctx)
+		started := time.Since(base)
+		time.Sleep(restartAt)
+		r.Restart()
+		returned := time.Since(base)
+		time.Sleep(time.Until(base.Add(started + d0 + 150*time.Millisecond)))
+		r.Stop()
+		mu.Lock()
+		all := append([]invocation{}, log...)
+		mu.Unlock()
+
+		desc := fmt.Sprintf("schedules {after %s, every %s}{after %s, every %s} Restart %s after Start", d0, f0, d1, f1, restartAt)
+		after := 0
+		var settled, second time.Duration = -1, -1
+		for _, inv := range all {
+			if inv.Enter >= returned {
+				after++
+				if after == 100 {
+					settled = inv.Enter
+				}
+			}
+			if inv.Freq == f1 && second < 0 {
+				second = inv.Enter
+			}
+		}
+		judged := settled >= 0 && second >= 0 && settled < second
+		cls := []string{}
+		if judged {
+			cls = append(cls, "restart-settled-before-second-schedule")
+		}
+		stats.Case("no-step-back", desc, judged, cls, func() any {
+			return map[string]any{"case": desc, "invocations": len(all), "restart_taken_up_by": settled.String(), "second_schedule_from": second.String()}
+		})
+		if !judged {
+			return
+		}
+		for n, inv := range all {
+			if inv.Enter > second && inv.Freq != f1 {
+				rt.Fatalf("VERIF-VIOLATION C18: the only Restart (returned at %s) had been taken up by %s, the second schedule was active from %s; yet invocation #%d at %s was handed the first schedule's frequency %s again - the runner went back to its first schedule without a Restart\ncase: %s",
+					returned, settled, second, n, inv.Enter, inv.Freq, desc)
+			}
+		}
+	})
+}
